@@ -75,6 +75,61 @@ static void set_cinfo(comp_info *ci)
 
 static int chunked(void) { return kind == 1 || kind == 3 || kind == 7; }
 
+/* ---- external files: foreign content in front of the data ------------------ */
+/* An external element at offset p1 shares its file with whatever occupies bytes [0,p1): the harness puts p1 guard
+ * bytes there before the layout call and checks at the end that they are untouched and that the data really sits at
+ * byte p1 (the offset is the user's description of THEIR file). */
+static unsigned char guard_byte(long i) { return (unsigned char)(0xA5 ^ (i * 7 + 3)); }
+static void ext_guard_write(void)
+{
+    FILE *g = fopen(ename, "wb");
+    long  i;
+    if (!g) return;
+    for (i = 0; i < p1; i++) fputc(guard_byte(i), g);
+    fclose(g);
+}
+/* expect: file representation of the whole dataset (or NULL), nbytes long */
+static void ext_guard_check(const unsigned char *expect, long nbytes)
+{
+    FILE *g = fopen(ename, "rb");
+    long  i;
+    if (!g) { if (p1 > 0) printf("X external file vanished\n"); return; }
+    for (i = 0; i < p1; i++) {
+        int c = fgetc(g);
+        if (c != (int)guard_byte(i)) { printf("X external file: foreign byte %ld in front of the data (offset %ld) clobbered\n", i, p1); fclose(g); return; }
+    }
+    if (expect) {
+        for (i = 0; i < nbytes; i++) {
+            int c = fgetc(g);
+            if (c != (int)expect[i]) { printf("X external file: data byte %ld is not at offset %ld + %ld\n", i, p1, i); break; }
+        }
+    }
+    fclose(g);
+}
+/* whole dataset as the API reads it now, converted to its file representation */
+static unsigned char *ext_expected(long *nbytes)
+{
+    int32 s0[MAXR], e0[MAXR];
+    long  n = 1, i;
+    void *buf;
+    unsigned char *out;
+    intn  rc;
+    for (i = 0; i < rank; i++) { s0[i] = 0; e0[i] = (int32)dims[i]; n *= dims[i]; }
+    buf = calloc((size_t)n + 1, 8);
+    if (api == 0) rc = SDreaddata(sds, s0, NULL, e0, buf);
+    else {
+        int32 gs[2] = {0, 0}, ge[2];
+        ge[0] = (int32)dims[1]; ge[1] = (int32)dims[0];
+        rc = (p3 > 0) ? FAIL : GRreadimage(ri, gs, NULL, ge, buf);
+    }
+    if (rc == FAIL) { free(buf); return NULL; }
+    out = (unsigned char *)calloc((size_t)n + 1, 8);
+    if (DFKconvert(buf, out, (int32)nt, (int32)n, DFACC_WRITE, 0, 0) == FAIL) { free(buf); free(out); return NULL; }
+    free(buf);
+    *nbytes = n * ntsize(nt);
+    return out;
+}
+
 /* ---- SD ---------------------------------------------------------------- */
 static void sd_open_new(void)
 {
@@ -122,6 +177,7 @@ static void sd_open_new(void)
         if (SDsetnbitdataset(sds, (intn)p1, (intn)p2, (intn)p3, (intn)p4) == FAIL) { dead = 1; printf("X SDsetnbitdataset failed\n"); return; }
     }
     else if (kind == 5) {
+        ext_guard_write();
         if (SDsetexternalfile(sds, ename, (int32)p1) == FAIL) { dead = 1; printf("X SDsetexternalfile failed\n"); return; }
     }
     else if (kind == 6) {
@@ -260,6 +316,7 @@ static void gr_open_new(void)
         if (GRsetcompress(ri, (comp_coder_t)coder, &ci) == FAIL) { dead = 1; printf("X GRsetcompress failed\n"); return; }
     }
     else if (kind == 5) {
+        ext_guard_write();
         if (GRsetexternalfile(ri, ename, (int32)p1) == FAIL) { dead = 1; printf("X GRsetexternalfile failed\n"); return; }
     }
 }
@@ -447,8 +504,69 @@ int main(int argc, char **argv)
             rc = api == 0 ? SDsetchunkcache(sds, (int32)n, 0) : GRsetchunkcache(ri, (int32)n, 0);
             printf("cache %s\n", rc == FAIL ? "fail" : "ok");
         }
+        else if (!strcmp(kw, "hr")) {
+            /* byte-stream access to the data element through up to three access ids opened at the same time on one
+               file id; requests (aid, element position or -1 = no seek, element count) */
+            long  k = rd(f), j, tot = 0, got = 0, sz = ntsize(nt);
+            long  ra[64], rp[64], rn[64];
+            int32 hf, aid[3] = {FAIL, FAIL, FAIL}, ref = 0;
+            int   okr = 1;
+            unsigned char *raw;
+            void *vals;
+            if (k > 64) return 2;
+            for (j = 0; j < k; j++) { ra[j] = rd(f); rp[j] = rd(f); rn[j] = rd(f); tot += rn[j] > 0 ? rn[j] : 0; }
+            if (dead) continue;
+            if (api == 0) sd_close(); else gr_close();
+            raw  = (unsigned char *)calloc((size_t)tot + 1, 8);
+            vals = calloc((size_t)tot + 1, 8);
+            hf   = Hopen(fname, DFACC_READ, 0);
+            if (hf == FAIL) okr = 0;
+            else {
+                uint16 tg = api == 0 ? DFTAG_SD : DFTAG_RI;
+                int32  a0 = Hstartread(hf, tg, DFREF_WILDCARD);
+                if (a0 == FAIL && api == 1) { tg = DFTAG_CI; a0 = Hstartread(hf, tg, DFREF_WILDCARD); }
+                if (a0 == FAIL) okr = 0;
+                else {
+                    uint16 rf = 0;
+                    Hinquire(a0, NULL, NULL, &rf, NULL, NULL, NULL, NULL, NULL);
+                    ref = rf;
+                    Hendaccess(a0);
+                    for (j = 0; j < 3 && okr; j++)
+                        if ((aid[j] = Hstartread(hf, tg, (uint16)ref)) == FAIL) okr = 0;
+                }
+                for (j = 0; j < k && okr; j++) {
+                    if (ra[j] < 0 || ra[j] > 2 || rn[j] < 0) { okr = 0; break; }
+                    if (rp[j] >= 0 && Hseek(aid[ra[j]], (int32)(rp[j] * sz), DF_START) == FAIL) { okr = 0; break; }
+                    if (rn[j] > 0 && Hread(aid[ra[j]], (int32)(rn[j] * sz), raw + got * sz) != (int32)(rn[j] * sz)) { okr = 0; break; }
+                    got += rn[j];
+                }
+                for (j = 0; j < 3; j++) if (aid[j] != FAIL) Hendaccess(aid[j]);
+                Hclose(hf);
+            }
+            if (okr && tot > 0 && DFKconvert(raw, vals, (int32)nt, (int32)tot, DFACC_READ, 0, 0) == FAIL) okr = 0;
+            if (!okr) printf("hr fail\n"); else print_vals("hr", vals, tot);
+            free(raw); free(vals);
+            /* back to the API level */
+            if (api == 0) {
+                sd  = SDstart(fname, DFACC_RDWR);
+                sds = sd == FAIL ? FAIL : SDselect(sd, SDnametoindex(sd, "data"));
+                if (sd == FAIL || sds == FAIL) { dead = 1; printf("X reopen after hr failed\n"); }
+            }
+            else {
+                fid = Hopen(fname, DFACC_RDWR, 0);
+                gr  = fid == FAIL ? FAIL : GRstart(fid);
+                ri  = gr == FAIL ? FAIL : GRselect(gr, 0);
+                if (ri == FAIL) { dead = 1; printf("X reopen after hr failed\n"); }
+                else if (p3 >= 0) GRreqimageil(ri, (intn)p3);
+            }
+        }
         else if (!strcmp(kw, "end")) {
+            unsigned char *expect = NULL;
+            long           enb = 0;
+            if (kind == 5 && !dead) expect = ext_expected(&enb);
             if (api == 0) { sd_close(); sd_special(); } else gr_close();
+            if (kind == 5 && !dead) ext_guard_check(expect, enb);
+            free(expect);
             printf("E\n");
             unlink(fname);
             unlink(ename);
